@@ -9,12 +9,17 @@ mod pure_bpb;
 mod pure_format;
 mod pure_fat;
 mod pure_cursor;
+mod dev;
+mod clock;
+mod script;
+mod exec;
+mod gen;
 
 use std::io::Write;
 use util::Tier;
 
 fn usage() -> ! {
-    eprintln!("usage: harness pure <suite> <quick|thorough> <seed> | harness hist <scenario> <quick|thorough> <seed> [args]");
+    eprintln!("usage: harness pure <suite> <quick|thorough> <seed> | harness gen|hist <scenario> <quick|thorough> <seed> [args] | harness exec < script");
     std::process::exit(2)
 }
 
@@ -22,6 +27,26 @@ fn main() {
     // panics of the library are caught and reported as data; keep stderr quiet
     std::panic::set_hook(Box::new(|_| {}));
     let args: Vec<String> = std::env::args().collect();
+    // history protocol: `harness exec` (script on stdin), `harness gen|hist <scenario> <tier> <seed>`
+    if args.len() >= 2 && args[1] == "exec" {
+        let stdin = std::io::stdin();
+        let stdout = std::io::stdout();
+        let mut out = std::io::BufWriter::with_capacity(1 << 20, stdout.lock());
+        exec::exec_script(&mut stdin.lock(), &mut out);
+        out.flush().unwrap();
+        return;
+    }
+    if args.len() >= 5 && (args[1] == "gen" || args[1] == "hist") {
+        let tier = Tier::parse(&args[3]);
+        let seed: u64 = args[4].parse().unwrap_or(0);
+        let stdout = std::io::stdout();
+        let mut out = std::io::BufWriter::with_capacity(1 << 20, stdout.lock());
+        if !gen::run(&args[2], tier, seed, args[1] == "hist", &args[5..], &mut out) {
+            usage();
+        }
+        out.flush().unwrap();
+        return;
+    }
     if args.len() < 5 {
         usage();
     }
